@@ -9,6 +9,8 @@ Lines (tab separated):
             off = comma list of the assets whose feed is off; mode ∈ {inactive (IsPriceActive=false), missing (no record)}
             owner/names/admin/brk/base/parentEmpty/branchClean/victimSame ∈ {0,1}; esm ∈ {none,in,after};
             outcome ∈ {ok,err,panic}
+  grd.cons  handler scn variant outcome parentEmpty                         the owner's message with ONE descriptive id replaced by another valid id
+  grd.time  handler kind endNanos deltaNanos outcome parentEmpty            kind ∈ {until, from}; outcome ∈ {ok, err:window, err:other, panic}
   grd.unit  unit scn needs off mode base changed panicked                  a begin-block unit that reads prices; changed = its records differ
   grd.wasm  variant chain senderKind sender base outcome diffEmpty        outcome ∈ {ok,err:guard,err:inner,panic}
   grd.sweep sweep app brk esm base started appDiffEmpty                    started = number of new liquidations / auctions
@@ -99,6 +101,34 @@ def handleUnit (seq unit scn needsS offS : String) (base changed panicked : Bool
   let m1 := if !hit.isEmpty && (changed || panicked) then [s!"MON\t{seq}\tprice_fail_closed"] else []
   d1 ++ d2 ++ m1
 
+/-- the OWNER's message with one descriptive id replaced by another valid id of the same kind: it must not act on the named
+position — any state change is a violation, and for the handlers of `Spec.consistencyExpected` it must be rejected -/
+def handleCons (seq handler scn variant outcome : String) (parentEmpty : Bool) : List String :=
+  match find? handler with
+  | none => [s!"BAD\t{seq}\thandler {handler} is not in the regenerated table"]
+  | some h =>
+    let rejected := outcome != "ok"
+    if variant.startsWith "info:" then [] else
+    let d1 := if !rejected && !(consistencyTags h).isEmpty && (consistencyTags h).all (consistencyGuarded h) && !hasWeakConsistency h
+                  && Spec.consistencyExpected.contains handler then
+        [s!"DIFF\t{seq}\t{handler} {scn} {variant}: the table's stand-alone consistency guards dominate every exit, impl={outcome}"] else []
+    let m1 := if !parentEmpty then ["position_consistent"] else []
+    let m2 := if !rejected && Spec.consistencyExpected.contains handler then ["position_consistent"] else []
+    let m3 := if rejected && !parentEmpty then ["rejected_no_change"] else []
+    d1 ++ ((m1 ++ m2 ++ m3).eraseDups.map fun m => s!"MON\t{seq}\t{m}")
+
+/-- a time-window guard probed around the window end T (full time value, nanoseconds): kind `until` = allowed while now ≤ T
+(vault withdraw: refused iff `now.After(T)`), kind `from` = allowed when now ≥ T (collateral redemption: refused iff
+`now.Before(T)`). outcome `err:window` = the guard's own error. -/
+def handleTime (seq handler kind : String) (delta : Int) (outcome : String) (parentEmpty : Bool) : List String :=
+  let isOpen := if kind == "until" then delta ≤ 0 else delta ≥ 0
+  let d1 := if isOpen && outcome == "err:window" then [s!"DIFF\t{seq}\t{handler} delta={delta}ns: the window is open, impl refused with the window error"] else []
+  let d2 := if !isOpen && outcome != "err:window" then [s!"DIFF\t{seq}\t{handler} delta={delta}ns: the window is closed, impl={outcome}"] else []
+  let d3 := if isOpen && kind == "until" && outcome != "ok" then [s!"DIFF\t{seq}\t{handler} delta={delta}ns: withdrawal is possible until the cool-off ends, impl={outcome}"] else []
+  let m1 := if !isOpen && (outcome == "ok" || !parentEmpty) then ["cooloff_closed"] else []
+  let m2 := if outcome != "ok" && !parentEmpty then ["rejected_no_change"] else []
+  d1 ++ d2 ++ d3 ++ ((m1 ++ m2).map fun m => s!"MON\t{seq}\t{m}")
+
 def handle (st : St) (seq : String) (f : List String) : St × List String :=
   let st' := { st with n := st.n + 1 }
   match f with
@@ -112,6 +142,14 @@ def handle (st : St) (seq : String) (f : List String) : St × List String :=
     match b? base, b? de with
     | some base, some de => (st', handleWasm seq variant chain kind sender base outcome de)
     | _, _ => (st', [s!"BAD\t{seq}\tgrd.wasm flags"])
+  | ["grd.time", handler, kind, _endNs, delta, outcome, pe] =>
+    match parseInt? delta, b? pe with
+    | some delta, some pe => (st', handleTime seq handler kind delta outcome pe)
+    | _, _ => (st', [s!"BAD\t{seq}\tgrd.time fields"])
+  | ["grd.cons", handler, scn, variant, outcome, pe] =>
+    match b? pe with
+    | some pe => (st', handleCons seq handler scn variant outcome pe)
+    | none => (st', [s!"BAD\t{seq}\tgrd.cons flags"])
   | ["grd.unit", unit, scn, needs, off, _mode, base, changed, panicked] =>
     match b? base, b? changed, b? panicked with
     | some base, some changed, some panicked => (st', handleUnit seq unit scn needs off base changed panicked)
